@@ -175,3 +175,107 @@ Proof.
   rewrite last_ev_app. unfold Conc.tag. rewrite map_app, fold_left_app. cbn.
   now rewrite Nat.eqb_refl.
 Qed.
+
+(** ** attachment, client sources and the current operation, according to the trace (ghost events of the model) *)
+Definition ev_slot (r j : nat) (v : Z) : ev := EvCli "g_slot" [zn r; zn j; v].
+Definition ev_att (r : nat) : ev := EvCli "g_att" [zn r].
+Definition ev_det (r : nat) : ev := EvCli "g_det" [zn r].
+
+Definition att_upd (e : ev) (acc : option nat) : option nat :=
+  match e with
+  | EvCli n [r] => if String.eqb n "g_att" then Some (Z.to_nat r) else if String.eqb n "g_det" then None else acc
+  | _ => acc
+  end.
+Definition att_step (t : nat) (acc : option nat) (te : nat * ev) : option nat :=
+  if Nat.eqb (fst te) t then att_upd (snd te) acc else acc.
+(** the record thread [t] is attached to *)
+Definition att_at (tr : trace) (t : nat) : option nat := fold_left (att_step t) tr None.
+
+Definition src_upd (k : nat) (e : ev) (acc : Z) : Z :=
+  match e with
+  | EvCli n [k'; o; _] => if (String.eqb n "g_src" && Z.eqb k' (zn k))%bool then o else acc
+  | _ => acc
+  end.
+(** content of client source [k] *)
+Definition src_at (tr : trace) (k : nat) : Z := fold_left (fun acc te => src_upd k (snd te) acc) tr 0%Z.
+
+Definition opstart_names : list string := ["detach"; "protect"; "assign"; "clear"; "copy"; "publish"].
+Definition is_opstart (e : ev) : bool := match e with EvCli n _ => existsb (String.eqb n) opstart_names | _ => false end.
+Definition resp_names' : list string :=
+  ["attached"; "skip"; "detached"; "protected"; "assigned"; "cleared"; "unlinked"; "retired"; "scanned"; "touch"; "copied"].
+Definition is_resp' (e : ev) : bool :=
+  match e with
+  | EvAcc KBegin _ _ => true
+  | EvCli n _ => existsb (String.eqb n) resp_names'
+  | _ => false
+  end.
+Definition op_upd (e : ev) (acc : option ev) : option ev :=
+  if is_opstart e then Some e else if is_resp' e then None else acc.
+Definition op_step (t : nat) (acc : option ev) (te : nat * ev) : option ev :=
+  if Nat.eqb (fst te) t then op_upd (snd te) acc else acc.
+(** the operation thread [t] is executing: its start event, until the response *)
+Definition open_op (tr : trace) (t : nat) : option ev := fold_left (op_step t) tr None.
+
+(** does the start of this operation release guard slot [j] of the thread *)
+Definition rel_b (j : nat) (e : ev) : bool :=
+  match e with
+  | EvCli n [] => String.eqb n "detach"
+  | EvCli n (x :: _) => (existsb (String.eqb n) ["protect"; "assign"; "clear"; "copy"] && Z.eqb x (zn j))%bool
+  | _ => false
+  end.
+
+Lemma att_at_snoc tr te t : att_at (tr ++ [te]) t = att_step t (att_at tr t) te.
+Proof. unfold att_at. now rewrite fold_left_app. Qed.
+Lemma src_at_snoc tr te k : src_at (tr ++ [te]) k = src_upd k (snd te) (src_at tr k).
+Proof. unfold src_at. now rewrite fold_left_app. Qed.
+Lemma open_op_snoc tr te t : open_op (tr ++ [te]) t = op_step t (open_op tr t) te.
+Proof. unfold open_op. now rewrite fold_left_app. Qed.
+Lemma att_at_app tr es t : att_at (tr ++ es) t = fold_left (att_step t) es (att_at tr t).
+Proof. unfold att_at. apply fold_left_app. Qed.
+Lemma src_at_app tr es k : src_at (tr ++ es) k = fold_left (fun acc te => src_upd k (snd te) acc) es (src_at tr k).
+Proof. unfold src_at. apply fold_left_app. Qed.
+Lemma open_op_app tr es t : open_op (tr ++ es) t = fold_left (op_step t) es (open_op tr t).
+Proof. unfold open_op. apply fold_left_app. Qed.
+
+(** the last slot store of thread [t] was [x] into slot (r,j); since then [t] emitted no slot store and did not
+    attach / detach; [ok = Some k]: and it has since loaded [x] from client source [k] *)
+Definition pat_ok (e : ev) : bool :=
+  negb (is_cli_named "g_slot" e || is_cli_named "g_att" e || is_cli_named "g_det" e).
+Definition val_pat (tr : trace) (t r j : nat) (x : Z) (ok : option nat) : Prop :=
+  exists g0, nth_error tr g0 = Some (t, ev_slot r j x) /\
+    (forall i e, g0 < i -> nth_error tr i = Some (t, e) -> pat_ok e = true) /\
+    match ok with None => True | Some k => exists w, g0 < w /\ nth_error tr w = Some (t, EvCli "g_ld" [zn k; x]) end.
+
+Definition last_te (tr : trace) : option (nat * ev) := nth_error tr (List.length tr - 1).
+
+(** what each ghost / client event says about the trace before it *)
+Definition ev_ok (pre : trace) (u : nat) (e : ev) : Prop :=
+  (forall r j x, e = ev_slot r j x ->
+     att_at pre u = Some r /\ exists e0, open_op pre u = Some e0 /\ rel_b j e0 = true) /\
+  (forall r, e = ev_det r -> open_op pre u = Some (EvCli "detach" [])) /\
+  (forall r, e = ev_att r -> att_at pre u = None /\ forall t', att_at pre t' <> Some r) /\
+  (forall k o old, e = EvCli "g_src" [zn k; o; old] ->
+     old = src_at pre k /\ open_op pre u = Some (EvCli "publish" [zn k; o])) /\
+  (forall k x, e = EvCli "g_ld" [zn k; x] -> x = src_at pre k) /\
+  (forall old, e = EvCli "unlinked" [old] ->
+     exists k o, pre <> [] /\ last_te pre = Some (u, EvCli "g_src" [zn k; o; old])) /\
+  (forall j p, e = EvCli "protected" [zn j; p] -> exists r k, val_pat pre u r j p (Some k)).
+
+Definition TrOK (tr : trace) : Prop := forall i u e, nth_error tr i = Some (u, e) -> ev_ok (firstn i tr) u e.
+
+Definition xspecial_names : list string := ["g_slot"; "g_det"; "g_att"; "g_src"; "g_ld"; "unlinked"; "protected"].
+Definition xplain (e : ev) : bool :=
+  match e with EvAcc _ _ _ => true | EvCli n _ => negb (existsb (String.eqb n) xspecial_names) end.
+
+Lemma xplain_name n args s : xplain (EvCli n args) = true -> In s xspecial_names -> String.eqb n s = false.
+Proof.
+  unfold xplain. intros H Hs. apply negb_true_iff in H. destruct (String.eqb n s) eqn:E; auto.
+  exfalso. rewrite <- not_true_iff_false in H. apply H. apply existsb_exists. exists s; auto.
+Qed.
+
+Lemma xplain_ev_ok pre u e : xplain e = true -> ev_ok pre u e.
+Proof.
+  intros H. destruct e as [k o b|n args]; [repeat split; intros; discriminate|].
+  unfold ev_ok, ev_slot, ev_det, ev_att.
+  repeat split; intros; match goal with E : EvCli _ _ = _ |- _ => inversion E; subst; cbn in H; discriminate H end.
+Qed.
